@@ -667,6 +667,12 @@ func (a *Agent) startConnectivityChecks(isControlling bool, remoteUfrag, remoteP
 
 	return a.loop.Run(a.loop, func(_ context.Context) {
 		a.isControlling.Store(isControlling)
+		// Candidates may be exchanged before the agent is started: the pairs
+		// formed so far carry the default role and follow the started one, so
+		// that their priority matches the peer's.
+		for _, pair := range a.checklist {
+			pair.iceRoleControlling = isControlling
+		}
 		a.remoteUfrag = remoteUfrag
 		a.remotePwd = remotePwd
 		a.setSelector()
